@@ -32,6 +32,11 @@ def run(chk):
         from ..inherit import inherit
         inherit(chk, "R09.5", "c03", ["R03.1", "R03.2", "R03.3"],
                 functions={"Crystal." + f for f in ENV_QUERIES} | {"Crystal.slab"} | helper_sites(repo))
+    chk.rule("R09.8", "the single-point kernels the root finders call agree with the batch kernels (= C05 R05.3): a density that drops to exactly 0 beyond "
+                      "the table gives the weight a spurious sign change that the root finder reports as a surface", 8)
+    if chk.want("R09.8"):
+        from ..inherit import inherit
+        inherit(chk, "R09.8", "c05", ["R05.3"])
     chk.rule("R09.7", "the invariants the descriptor is made of are rotation invariant in structure (= C08 R08.1 degree blocks with weight one, "
                       "R08.4 fixed layout and expansion domain)", 6)
     if chk.want("R09.7"):
